@@ -60,7 +60,13 @@ func (g *gen) structs() []int {
 	return out
 }
 
-func (g *gen) set(p int) { g.emit(opDesc{Op: "set", N: p, V: g.r.Intn(1000)}) }
+func (g *gen) set(p int) {
+	v := g.r.Intn(1000)
+	if g.r.Chance(1, 8) {
+		v = 0 // the zero value of the parameter's type is a value like any other
+	}
+	g.emit(opDesc{Op: "set", N: p, V: v})
+}
 func (g *gen) read(n int) { g.emit(opDesc{Op: "read", N: n}) }
 
 // connect src to a random (or the given) field of n
@@ -81,7 +87,12 @@ func (g *gen) connect(n, src int, fi int) bool {
 			port += fmt.Sprintf(".%d", len(g.m.ports[n][fi]))
 		}
 	}
-	return g.emit(opDesc{Op: "connect", N: n, Port: port, Src: src})
+	// which reference of the source is wired: its Out(), the node itself (nodes implement NodeOutput), a renamed output
+	ref := 0
+	if g.r.Chance(1, 3) {
+		ref = 1 + g.r.Intn(2)
+	}
+	return g.emit(opDesc{Op: "connect", N: n, Port: port, Src: src, Ref: ref})
 }
 
 func (g *gen) disconnect(n int) {
@@ -118,7 +129,16 @@ func (g *gen) invalid() {
 	fs := g.m.fields(n)
 	f := hx.Pick(g.r, fs)
 	src := hx.Pick(g.r, ps)
-	switch g.r.Intn(12) {
+	switch g.r.Intn(14) {
+	case 12, 13:
+		// an output of another value type (string) offered to an int port: reflect refuses it ("Any" would take it)
+		if f.Name != "Any" {
+			port := f.Name
+			if f.Array {
+				port += ".0"
+			}
+			g.emit(opDesc{Op: "badconnect", N: n, Port: port})
+		}
 	case 0:
 		g.emit(opDesc{Op: "connect", N: n, Port: "Nope", Src: src})
 	case 1:
@@ -168,26 +188,27 @@ func (g *gen) addNode(kind string) int {
 	n := nodeDesc{Kind: kind}
 	if isParam(kind) {
 		n.Init = g.r.Intn(1000)
+		if g.r.Chance(1, 3) {
+			n.Subs = 1 + g.r.Intn(2)
+		}
 	} else {
 		n.Salt = 1 + g.r.Intn(5000)
 		n.Fail = g.r.Chance(1, 3)
 		n.Pan = g.r.Chance(1, 4)
+		n.New = g.r.Chance(1, 3)
 	}
 	g.d.Nodes = append(g.d.Nodes, n)
 	return len(g.d.Nodes) - 1
 }
 func (g *gen) addParam() int {
-	switch g.r.Intn(8) {
-	case 0, 1, 2:
+	switch x := g.r.Intn(16); {
+	case x < 3:
 		return g.addNode("pval")
-	case 3:
-		return g.addNode("pslice")
-	case 4:
-		return g.addNode("pmap")
-	case 5:
-		return g.addNode("pstruct")
+	case x < 6:
+		return g.addNode("vnode")
+	default:
+		return g.addNode([]string{"pcli", "pslice", "pmap", "pstruct", "pstr", "pf64", "pbool", "pvec3", "pvarr", "pfile"}[x-6])
 	}
-	return g.addNode("vnode")
 }
 func (g *gen) anyKind() string { return kinds[g.r.Intn(len(kinds))].Name }
 
@@ -333,7 +354,7 @@ func genHist(r *hx.Rng, thorough bool) histDesc {
 		case x < 56:
 			// an update message that is rejected after a valid prefix: nothing may change
 			p := hx.Pick(r, ps)
-			if g.d.Nodes[p].Kind != "vnode" {
+			if !noBadMessage(g.d.Nodes[p].Kind) {
 				g.emit(opDesc{Op: "badset", N: p, V: r.Intn(1000)})
 			}
 		case x < 72:
@@ -579,6 +600,114 @@ func fixedCases() []histDesc {
 			{Op: "badset", N: 1, V: 200}, {Op: "read", N: 1}, {Op: "read", N: 5}, {Op: "set", N: 3, V: 8}, {Op: "read", N: 5},
 			{Op: "badset", N: 2, V: 300}, {Op: "read", N: 2}, {Op: "read", N: 5}, {Op: "set", N: 3, V: 9}, {Op: "read", N: 5},
 			{Op: "badset", N: 3, V: 1}, {Op: "read", N: 5}, {Op: "set", N: 0, V: 11}, {Op: "read", N: 5}, {Op: "badset", N: 0, V: 400}, {Op: "read", N: 4}, {Op: "read", N: 5}}
+		out = append(out, d)
+	}
+	// an array input is edited AFTER its consumers were read, and the consumer furthest downstream is read next,
+	// before anything else happens (append, delete at index, clear, append again; one and two levels below)
+	{
+		d := histDesc{Shape: "fixed-array-downstream", Nodes: []nodeDesc{{Kind: "pval", Init: 1}, {Kind: "vnode", Init: 2}, {Kind: "pval", Init: 3},
+			{Kind: "arr", Salt: 67}, {Kind: "chain", Salt: 71}, {Kind: "chain", Salt: 73}, {Kind: "multi", Salt: 79, New: true}, {Kind: "bin", Salt: 83}}}
+		d.Ops = []opDesc{{Op: "set", N: 0, V: 11}, {Op: "set", N: 1, V: 12}, {Op: "set", N: 1, V: 13},
+			{Op: "connect", N: 3, Port: "Values.0", Src: 0}, {Op: "connect", N: 3, Port: "Values.1", Src: 1}, {Op: "connect", N: 4, Port: "In", Src: 3},
+			{Op: "connect", N: 5, Port: "In", Src: 4}, {Op: "connect", N: 6, Port: "Inputs.0", Src: 0}, {Op: "connect", N: 6, Port: "Scales.0", Src: 1},
+			{Op: "connect", N: 6, Port: "Offset", Src: 2}, {Op: "connect", N: 7, Port: "A", Src: 6}, {Op: "connect", N: 7, Port: "B", Src: 3},
+			{Op: "read", N: 5}, {Op: "read", N: 7},
+			{Op: "connect", N: 3, Port: "Values.2", Src: 2}, {Op: "read", N: 5}, {Op: "read", N: 5},
+			{Op: "disconnect", N: 3, Port: "Values.0"}, {Op: "read", N: 5}, {Op: "read", N: 4},
+			{Op: "connect", N: 6, Port: "Scales.1", Src: 2}, {Op: "read", N: 7}, {Op: "disconnect", N: 6, Port: "Inputs.0"}, {Op: "read", N: 7}, {Op: "read", N: 7},
+			{Op: "disconnect", N: 3, Port: "Values"}, {Op: "read", N: 5}, {Op: "read", N: 7},
+			{Op: "connect", N: 3, Port: "Values.0", Src: 1}, {Op: "read", N: 7}, {Op: "read", N: 5},
+			{Op: "connect", N: 6, Port: "Inputs.0", Src: 3}, {Op: "read", N: 7}, {Op: "disconnect", N: 3, Port: "Values.0"}, {Op: "read", N: 7},
+			{Op: "connect", N: 3, Port: "Values.7", Src: 0, Ref: 1}, {Op: "read", N: 7}, {Op: "read", N: 5}, {Op: "read", N: 3}}
+		out = append(out, d)
+	}
+	// failing processors read directly, twice and three times with nothing changed, then through consumers
+	{
+		const saltB = 17
+		hashB := func(v int) int { return (((saltB*37+11+1)%hmod)*31 + v) % hmod }
+		var bad, good []int
+		for v := 1; len(bad) < 2 || len(good) < 2; v++ {
+			if hashB(v)%3 == 0 {
+				bad = append(bad, v)
+			} else {
+				good = append(good, v)
+			}
+		}
+		d := histDesc{Shape: "fixed-failing-twice", Nodes: []nodeDesc{{Kind: "pval", Init: good[0]}, {Kind: "chain", Salt: saltB, Fail: true},
+			{Kind: "chain", Salt: 19, Fail: true}, {Kind: "bin", Salt: 113}, {Kind: "arr", Salt: 3, Fail: true}}}
+		d.Ops = []opDesc{{Op: "connect", N: 1, Port: "In", Src: 0}, {Op: "connect", N: 2, Port: "In", Src: 1}, {Op: "connect", N: 3, Port: "A", Src: 1},
+			{Op: "connect", N: 3, Port: "B", Src: 2}, {Op: "read", N: 4}, {Op: "read", N: 4}, {Op: "read", N: 4},
+			{Op: "set", N: 0, V: bad[0]}, {Op: "read", N: 1}, {Op: "read", N: 1}, {Op: "read", N: 1}, {Op: "read", N: 3}, {Op: "read", N: 3},
+			{Op: "read", N: 2}, {Op: "read", N: 2}, {Op: "read", N: 1},
+			{Op: "set", N: 0, V: good[1]}, {Op: "read", N: 1}, {Op: "read", N: 1}, {Op: "read", N: 2}, {Op: "read", N: 2},
+			{Op: "set", N: 0, V: bad[1]}, {Op: "read", N: 3}, {Op: "read", N: 3}, {Op: "read", N: 1}, {Op: "read", N: 1}, {Op: "read", N: 2}, {Op: "read", N: 2}}
+		out = append(out, d)
+	}
+	// one parameter of every kind (flag-initialised, slice, map, struct, string, float, bool, vector, vector array,
+	// file, int, value node; 0-2 subscribers each) feeding one array port: updates, rejected updates, zero values
+	{
+		ks := []string{"pcli", "pslice", "pmap", "pstruct", "pstr", "pf64", "pbool", "pvec3", "pvarr", "pfile", "pval", "vnode"}
+		d := histDesc{Shape: "fixed-param-kinds"}
+		for i, k := range ks {
+			d.Nodes = append(d.Nodes, nodeDesc{Kind: k, Init: 40 + i, Subs: i % 3})
+		}
+		np := len(ks)
+		d.Nodes = append(d.Nodes, nodeDesc{Kind: "arr", Salt: 89}, nodeDesc{Kind: "chain", Salt: 91, New: true})
+		for i := range ks {
+			d.Ops = append(d.Ops, opDesc{Op: "read", N: i}, opDesc{Op: "connect", N: np, Port: fmt.Sprintf("Values.%d", i), Src: i})
+		}
+		d.Ops = append(d.Ops, opDesc{Op: "connect", N: np + 1, Port: "In", Src: np}, opDesc{Op: "read", N: np + 1})
+		for i := range ks {
+			d.Ops = append(d.Ops, opDesc{Op: "set", N: i, V: 10 + i}, opDesc{Op: "read", N: np + 1})
+		}
+		for i, k := range ks {
+			if !noBadMessage(k) {
+				d.Ops = append(d.Ops, opDesc{Op: "badset", N: i, V: 500 + i}, opDesc{Op: "read", N: i}, opDesc{Op: "read", N: np + 1})
+			}
+		}
+		for i := range ks {
+			d.Ops = append(d.Ops, opDesc{Op: "set", N: i, V: 0})
+		}
+		d.Ops = append(d.Ops, opDesc{Op: "read", N: np + 1})
+		for i := range ks {
+			d.Ops = append(d.Ops, opDesc{Op: "read", N: i}, opDesc{Op: "set", N: i, V: 0}, opDesc{Op: "read", N: np + 1}, opDesc{Op: "read", N: np + 1})
+		}
+		d.Ops = append(d.Ops, opDesc{Op: "set", N: 0, V: 5}, opDesc{Op: "read", N: 0}, opDesc{Op: "read", N: np + 1})
+		out = append(out, d)
+	}
+	// nodes built by nodes.NewStruct (zero-input ones are read before anything else), one source wired through its
+	// three references (Out(), the node itself, a renamed output), a string output offered to int ports
+	{
+		d := histDesc{Shape: "fixed-refs", Nodes: []nodeDesc{{Kind: "pval", Init: 1}, {Kind: "vnode", Init: 2}, {Kind: "chain", Salt: 97, New: true},
+			{Kind: "quad", Salt: 101, New: true}, {Kind: "arr", Salt: 103, New: true}, {Kind: "wide", Salt: 107, New: true}, {Kind: "chain", Salt: 109}}}
+		d.Ops = []opDesc{{Op: "read", N: 4}, {Op: "read", N: 4}, {Op: "read", N: 5}, {Op: "read", N: 5}, {Op: "read", N: 2}, {Op: "read", N: 2},
+			{Op: "connect", N: 2, Port: "In", Src: 0}, {Op: "connect", N: 3, Port: "D", Src: 2}, {Op: "connect", N: 3, Port: "A", Src: 2, Ref: 1},
+			{Op: "connect", N: 3, Port: "C", Src: 2, Ref: 2}, {Op: "connect", N: 3, Port: "B", Src: 1, Ref: 1}, {Op: "connect", N: 6, Port: "In", Src: 3, Ref: 2},
+			{Op: "read", N: 6}, {Op: "read", N: 6}, {Op: "badconnect", N: 6, Port: "In"}, {Op: "read", N: 6}, {Op: "badconnect", N: 4, Port: "Values.0"},
+			{Op: "read", N: 4}, {Op: "badconnect", N: 4, Port: "Values"}, {Op: "read", N: 4},
+			{Op: "set", N: 0, V: 7}, {Op: "read", N: 6}, {Op: "set", N: 1, V: 8}, {Op: "read", N: 3}, {Op: "read", N: 6},
+			{Op: "connect", N: 2, Port: "In", Src: 0, Ref: 1}, {Op: "read", N: 6}, {Op: "read", N: 6},
+			{Op: "connect", N: 4, Port: "Values.0", Src: 3, Ref: 1}, {Op: "connect", N: 4, Port: "Values.1", Src: 3, Ref: 2}, {Op: "read", N: 4},
+			{Op: "set", N: 0, V: 9}, {Op: "read", N: 4}, {Op: "read", N: 4}, {Op: "disconnect", N: 3, Port: "A"}, {Op: "read", N: 4}, {Op: "read", N: 6}}
+		out = append(out, d)
+	}
+	// versions far apart: a parameter updated 256 times between two reads, a node executed 256 times between two
+	// reads of its consumer (a version remembered or compared in fewer bits would look unchanged)
+	{
+		d := histDesc{Shape: "fixed-many-updates", Nodes: []nodeDesc{{Kind: "pval", Init: 1}, {Kind: "vnode", Init: 2}, {Kind: "bin", Salt: 127}, {Kind: "chain", Salt: 131}}}
+		d.Ops = []opDesc{{Op: "connect", N: 2, Port: "A", Src: 0}, {Op: "connect", N: 2, Port: "B", Src: 1}, {Op: "connect", N: 3, Port: "In", Src: 2}, {Op: "read", N: 3}}
+		for k := 0; k < 256; k++ {
+			d.Ops = append(d.Ops, opDesc{Op: "set", N: 0, V: 3 + k%5})
+		}
+		d.Ops = append(d.Ops, opDesc{Op: "read", N: 3}, opDesc{Op: "read", N: 3})
+		for k := 0; k < 256; k++ {
+			d.Ops = append(d.Ops, opDesc{Op: "set", N: 1, V: 9 + k%3})
+		}
+		d.Ops = append(d.Ops, opDesc{Op: "read", N: 3}, opDesc{Op: "read", N: 3})
+		for k := 0; k < 256; k++ {
+			d.Ops = append(d.Ops, opDesc{Op: "set", N: 1, V: 20 + k%7}, opDesc{Op: "read", N: 2})
+		}
+		d.Ops = append(d.Ops, opDesc{Op: "read", N: 3}, opDesc{Op: "read", N: 3})
 		out = append(out, d)
 	}
 	return out
